@@ -3176,6 +3176,7 @@ def optimize_blockwise_fusion(expr):
 class Diff(MapOverlap):
     _parameters = ["frame", "periods"]
     _defaults = {"periods": 1}
+    _is_length_preserving = True
     func = M.diff
     enforce_metadata = True
     transform_divisions = False
@@ -3224,6 +3225,7 @@ class FillnaCheck(Blockwise):
 class FFill(MapOverlap):
     _parameters = ["frame", "limit"]
     _defaults = {"limit": None}
+    _is_length_preserving = True
     func = M.ffill
     enforce_metadata = True
     transform_divisions = False
@@ -3273,6 +3275,7 @@ class BFill(FFill):
 class Shift(MapOverlap):
     _parameters = ["frame", "periods", "freq"]
     _defaults = {"periods": 1, "freq": None}
+    _is_length_preserving = True
 
     func = M.shift
     enforce_metadata = True
